@@ -27,6 +27,10 @@ belongs to a recorded finding):
                        when the command arrived);
 * `off-group-unsatisfied` after the command every waiting member (re)spawned in the triggered flow has all
                        its off-group prerequisite atoms satisfied;
+* `member-held`        the trigger overrides holds requested before it: a member that the command does not start
+                       at once (respawned, or spawned later by its in-group parents) is not on the hold list
+                       right after the command and is not held when it is in the pool afterwards, unless the user
+                       holds it (hold command naming it, hold point set, restart) after the trigger;
 * `ran-twice`          no member is launched twice by one main loop, nor again while its proxy stays in the pool
                        without the scheduler having put it back to waiting (retry, absorbed by a flow) or a new
                        command naming it (re-runs of a finished instance in a merged flow are C02's subject).
@@ -55,6 +59,7 @@ def strList (j : Option Json) : List String := ((j.bind jArr?).getD []).filterMa
 structure PO where
   key : Key
   st : String
+  held : Bool := false
   fl : List Nat
   sn : Nat
   out : List String            -- completed output *triggers*
@@ -82,13 +87,16 @@ structure Ob where
   toWaiting : List Key         -- proxies whose status went (back) to waiting in this op
   unpooledPrep : List Key      -- objects that entered job preparation while they were not the pooled proxy
   dbStates : List (Key × List Nat)   -- (instance, flow numbers) of the `task_states` rows, when observed
+  holdTasks : List Key         -- `tasks_to_hold`
+  holdPoint : Option Int       -- the hold point in force
   stopped : Bool
   stopMode : Bool
   deriving Inhabited
 
 def parseOb (ob : Json) : Ob :=
   let pool := (poolOf ob).map fun t =>
-    ({ key := keyOf t, st := (jStrField? t "st").getD "", fl := natList (jField? t "fl"),
+    ({ key := keyOf t, st := (jStrField? t "st").getD "", held := (jBoolField? t "held").getD false,
+       fl := natList (jField? t "fl"),
        sn := (jNatField? t "sn").getD 0, out := strList (jField? t "out") } : PO)
   let xt := (jField? ob "xt").getD Json.null
   let pre := ((jArrField? xt "pool").getD []).map fun t =>
@@ -121,7 +129,10 @@ def parseOb (ob : Json) : Ob :=
     match jArr? r with
     | some (p :: n :: fl :: _) => do pure (((← jInt? p), (← jStr? n)), natList (some fl))
     | _ => none
-  { pool, pre, now, launch, msgs, toWaiting, unpooledPrep, dbStates,
+  let holdJ := (jField? ob "hold").getD Json.null
+  let holdTasks := ((jArrField? holdJ "tasks").getD []).filterMap keyArr?
+  let holdPoint := (jOptField holdJ "point").bind jInt?
+  { pool, pre, now, launch, msgs, toWaiting, unpooledPrep, dbStates, holdTasks, holdPoint,
     stopped := (jOptField ob "stop").isSome, stopMode := (jOptField ob "stop_mode").isSome }
 
 def Ob.get? (o : Ob) (k : Key) : Option PO := o.pool.find? (·.key == k)
@@ -150,6 +161,15 @@ def parseTrigs (i : Json) : List Trig :=
     some { idx := k, ids, flow, groups }
 
 def isLoop (op : Json) : Bool := jStrField? op "op" == some "loop"
+
+/-- a user hold that can put `k` on hold: `cylc hold` naming it, a hold point being set, or a restart (which
+re-applies the hold point) -/
+def userHolds (op : Json) (k : Key) : Bool :=
+  jStrField? op "op" == some "restart" ||
+  (jStrField? op "op" == some "cmd" &&
+    (jStrField? op "name" == some "set_hold_point" ||
+     (jStrField? op "name" == some "hold" &&
+      (strList (((jField? op "args").getD Json.null).getObjVal? "tasks" |>.toOption)).contains (showKey k))))
 
 def namesKey (op : Json) (k : Key) : Bool :=
   jStrField? op "op" == some "cmd" &&
@@ -276,6 +296,33 @@ def judgeAll (g : Graph) (seqTasks : List String) (ops : List Json) (trigs : Lis
                 let key := if otherFlow then some "other-flow-member" else if implicit then some "sequential-task" else none
                 fails := fails ++ [⟨key, s!"off-group-unsatisfied: op {i}: member {showKey m} (before: {(b.map (·.st)).getD "not in the pool"}, flows {y.fl}) still waits for the off-group prerequisite {av.1}/{av.2.1}:{av.2.2.1} after the trigger"⟩]
       | none => pure ()
+      -- trigger_overrides_hold: every member is to run, so a member that the command does not start at once
+      -- (it is respawned, or spawned later by its in-group parents) must not be left on hold by a `cylc hold`
+      -- issued BEFORE the trigger: not in the hold list right after the command, and not held when it is in the
+      -- pool later -- unless the user holds it (hold command naming it, hold point set, restart) after the trigger
+      if !liveStart && !exemptNone && !(isStart m && b.isSome) then
+        let beyond (o : Ob) : Bool := match o.holdPoint with | some hp => m.1 > hp | none => false
+        let keyOfShape (o : Ob) : Option String :=
+          if beyond before || beyond o then some "hold-point-blocks-member"
+          else if t.flow == .none then some "flow-none-keeps-hold" else none
+        let otherFlowM : Bool := match b, f with
+          | some x, some ff => (x.fl.any fun n => !ff.contains n) || (x.fl.isEmpty && !ff.isEmpty)
+          | _, _ => false
+        if !otherFlowM then
+          if after.holdTasks.contains m then
+            fails := fails ++ [⟨keyOfShape after, s!"member-held: op {i}: member {showKey m} (before: {(b.map (·.st)).getD "not in the pool"}) is still on the hold list after the trigger"⟩]
+          else
+            let mut stop := false
+            for q in [i + 2 : nextTrig + 1] do
+              if stop then break
+              let some oq := obs[q]? | break
+              if (match ops[q - 1]? with | some op => userHolds op m | none => false) then stop := true
+              else match oq.get? m with
+                | some y =>
+                  if y.held then
+                    stop := true
+                    fails := fails ++ [⟨keyOfShape oq, s!"member-held: op {i}: member {showKey m} is held (op {q - 1}) although no hold was requested after the trigger"⟩]
+                | none => pure ()
       -- in_group_order: the first launch of a non-start member in the triggered flow, before the next trigger
       if !isStart m && !before.now.contains m then
         let mut done := false
